@@ -334,7 +334,7 @@ Lemma source_facts :
   sk_recv_trailing_metadata = map s2z
     ["recv_trailers"; "_process_grpc_status"; "decode_metadata"; "recv_trailing_metadata";
      "_raise_for_grpc_status"]%string /\
-  sk_maybe_finish = map s2z ["is_closing"; "recv_initial_metadata"; "recv_trailing_metadata"]%string /\
+  sk_maybe_finish = map s2z ["recv_initial_metadata"; "recv_trailing_metadata"]%string /\
   sk_maybe_raise = map s2z
     ["_raise_for_status"; "_process_grpc_status"; "_raise_for_grpc_status"; "_process_grpc_status";
      "_raise_for_grpc_status"]%string /\
@@ -347,7 +347,7 @@ Lemma source_facts :
     ["open"; "send_message"; "send_message"; "send_request"; "recv_message";
      "assert:reply is not None"]%string /\
   sk_call_ss = map s2z ["open"; "send_message"; "send_message"; "send_request"; "__aiter__"]%string /\
-  maybe_finish_test = s2z "not self._cancel_done and (not self._stream._transport.is_closing())" /\
+  maybe_finish_test = s2z "not self._cancel_done" /\
   aexit_tests = map s2z
     ["not self._send_request_done"; "exc_val is None"; "isinstance(exc_val, StreamTerminatedError)";
      "reraise"; "self._stream.closable"; "self._wrapper_ctx is not None"; "exc_val is None"]%string /\
@@ -402,7 +402,7 @@ Qed.
 (* every check takes the outcome r = outcome k bs as an argument, so that it is computed once per cell *)
 Definition chk_table (k : kind) (bs : list batch) (r : result) : bool := defect k bs || spec_allows bs r.
 Definition chk_ok (k : kind) (bs : list batch) (r : result) : bool :=
-  match r with ROk _ => d2f k bs || status_ok_received bs | _ => true end.
+  match r with ROk _ => status_ok_received bs | _ => true end.
 Definition chk_hang (k : kind) (bs : list batch) (r : result) : bool :=
   match r with
   | RHang => negb (ev_ended (events bs) || ev_cut (events bs) false)
@@ -430,7 +430,7 @@ Definition exn_eqb (a b : exn) : bool :=
 Definition raises (r : result) (e : exn) : bool := match r with RExc e' => exn_eqb e' e | _ => false end.
 (* rows of the table with their exact outcome *)
 Definition row_non200_hyp (k : kind) (bs : list batch) : bool :=
-  is_not200 (ev_hdr (events bs)) && negb (d2f k bs).
+  is_not200 (ev_hdr (events bs)).
 Definition chk_row_non200 (k : kind) (bs : list batch) (r : result) : bool :=
   implb (row_non200_hyp k bs) (raises r XHttpStatus).
 Definition row_server_trl_hyp (k : kind) (bs : list batch) : bool :=
@@ -447,7 +447,7 @@ Definition chk_row_server (k : kind) (bs : list batch) (r : result) : bool :=
 (* the response was cut before END_STREAM and before any grpc-status (or anything unacceptable) arrived *)
 Definition row_nothing_hyp (k : kind) (bs : list batch) : bool :=
   let es := events bs in
-  ev_cut es false && negb (ev_ended es) && negb (d2f k bs) && negb (d2c k bs)
+  ev_cut es false && negb (ev_ended es) && negb (d2c k bs)
   && match ev_hdr es with None => true | Some h => acceptable (Some h) && gs_eqb (hi_gs h) GsAbsent end
   && negb (has_trl_ev es).
 Definition chk_row_nothing (k : kind) (bs : list batch) (r : result) : bool :=
@@ -493,7 +493,7 @@ Ltac split_checks H :=
 
 (* ---- the theorems read off the enumeration ---- *)
 
-(* every cell of the table, outside the four recorded defect classes *)
+(* every cell of the table, outside the three recorded defect classes *)
 Lemma table_partial k bs :
   In k all_kinds -> In bs (cases_of 2 k) -> defect k bs = false ->
   spec_allows bs (outcome k bs) = true.
@@ -502,27 +502,13 @@ Proof.
   unfold chk_table in Hc6. rewrite Hd in Hc6. exact Hc6.
 Qed.
 
-(* success only on grpc-status OK on an acceptable response: full strength for the four __call__s *)
-Lemma ok_sound_call k bs n :
-  In k call_kinds -> In bs (cases_of 2 k) -> outcome k bs = ROk n ->
+(* success only on grpc-status OK on an acceptable response: full strength, every kind *)
+Lemma ok_sound k bs n :
+  In k all_kinds -> In bs (cases_of 2 k) -> outcome k bs = ROk n ->
   status_ok_received bs = true.
 Proof.
-  intros Hk Hbs Ho.
-  assert (Hk' : In k all_kinds) by (apply in_or_app; left; exact Hk).
-  pose proof (domain k bs Hk' Hbs) as H. split_checks H.
-  unfold chk_ok in Hc5. rewrite Ho in Hc5.
-  assert (Hf : d2f k bs = false).
-  { cbn [call_kinds In] in Hk. destruct Hk as [<-|[<-|[<-|[<-|[]]]]]; reflexivity. }
-  rewrite Hf in Hc5. exact Hc5.
-Qed.
-
-(* ... and for the open() context unless GOAWAY / connection loss was delivered inline (D2f) *)
-Lemma ok_sound_open_partial k bs n :
-  In k all_kinds -> In bs (cases_of 2 k) -> d2f k bs = false -> outcome k bs = ROk n ->
-  status_ok_received bs = true.
-Proof.
-  intros Hk Hbs Hf Ho. pose proof (domain k bs Hk Hbs) as H. split_checks H.
-  unfold chk_ok in Hc5. rewrite Ho, Hf in Hc5. exact Hc5.
+  intros Hk Hbs Ho. pose proof (domain k bs Hk Hbs) as H. split_checks H.
+  unfold chk_ok in Hc5. rewrite Ho in Hc5. exact Hc5.
 Qed.
 
 (* the call finishes whenever the script ends in END_STREAM or a cut *)
@@ -646,12 +632,18 @@ Lemma end_stream_without_trailers :
   spec_allows bs (RExc (XBadGrpcStatus BTrl)) = true.
 Proof. vm_compute. repeat split. Qed.
 
-(* D2f: open() body read one message; trailers with a non-OK status and GOAWAY arrive before the
-   exit: the block finishes successfully *)
-Lemma ok_sound_open_refuted :
+(* (repaired D2f) open() body read one message; trailers with a non-OK status and GOAWAY arrive
+   before the exit: the implicit receive fails at once and is upgraded to the server's status; a body
+   that received nothing before the connection was lost ends in StreamTerminatedError; an exchange whose
+   trailers were already consumed exits cleanly *)
+Lemma closing_before_exit :
   let bs := [{| b_trig := TB; b_events := [AH (H_ok GsAbsent MdOk) false; AD false] |};
              {| b_trig := TS 1; b_events := [AT (T_of GsErr); AGoaway] |}] in
-  wf_script bs = true /\ outcome (Open false false [RM]) bs = ROk 1 /\ status_ok_received bs = false.
+  let done := [{| b_trig := TB; b_events := [AH (H_ok GsAbsent MdOk) false; AD false; AT (T_of GsOk)] |};
+               {| b_trig := TS 3; b_events := [AGoaway] |}] in
+  wf_script bs = true /\ outcome (Open false false [RM]) bs = RExc (XServer BTrl) /\
+  outcome (Open false false []) [{| b_trig := TS 0; b_events := [ALost] |}] = RExc XTerminated /\
+  outcome (Open false false [RI; RM; RT]) done = ROk 1.
 Proof. vm_compute. repeat split. Qed.
 
 (* D2g: text/html with grpc-status in the headers, then RST_STREAM: the server's status, not UNKNOWN *)
@@ -873,7 +865,7 @@ Qed.
 
 Lemma maybe_finish_safe s bs : good (final s bs) = true -> safe (maybe_finish s bs).
 Proof.
-  intros Hg. unfold maybe_finish. destruct (closing s); [exact Hg|].
+  intros Hg. unfold maybe_finish.
   apply safe_bind.
   - destruct (ri_done s); [exact Hg|]. apply recv_initial_safe. exact Hg.
   - intros _ s1 bs1 H. destruct (rt_done s1); [exact H|]. apply recv_trailing_safe. exact H.
